@@ -20,10 +20,10 @@ reg('C03', engine='h_planners', level='fault_enumeration',
          'resumed solve; history part: one case = (planner, generated history of 2-8 calls over solve / solve(0) / clear / '
          'clearQuery / new problem definition / getPlannerData / new query); all under the C01 oracle, a state-counting '
          'space and ASan; non-trivial = block or history with >= 2 calls',
-    floors={'quick': {'c03_interrupted_solves': 3000, 'c03_resume_checks': 500, 'leak_scopes_checked': 3000, 'c03_clear_checks': 20},
+    floors={'quick': {'c03_interrupted_solves': 8000, 'c03_resume_checks': 1500, 'leak_scopes_checked': 8000, 'c03_clear_checks': 60},
             'thorough': {'c03_interrupted_solves': 30000}},
     hang_is_violation=True,
-    case_timeout={'quick': 900, 'thorough': 1800},
+    case_timeout={'quick': 75, 'thorough': 240},
     level_text='fault enumeration over the evaluation index at which the termination condition first fires (exhaustive for '
                'small k, sampled beyond) and exploration of call histories; oracle: status truthfulness, C01 solution oracle, '
                'bounded further evaluations, keep-or-improve on resume, no stale query end points, live-state accounting, ASan',
